@@ -63,6 +63,12 @@ func runC03(c *Ctx) {
 	c.Rule("O3.4", "one shot or one discard per token: on every path after Waiter.Wait returned true exactly one of Gun.Shoot(ammo) / Aggregator.Report(DiscardedShootSample()) occurs; after Wait returned false neither")
 	c.Rule("O3.5", "counters bracket the shot: Request.Add(1) dominates every Shoot, Response.Add(1) post-dominates it, each at most once per token, never on the discard path")
 	c.Rule("O3.6", "shared vs per-instance schedule: with rps-per-instance the schedule factory itself is handed to instances; otherwise one schedule built once and returned by a closure; newInstance draws exactly one schedule")
+	c.Rule("O3.7", "the shared profile is not declared finished early: a composite profile answers ok=false only from its last part (the engine stops the pool on the first 'finished' answer, so an early one leaves the remaining tokens neither fired nor discarded); the same decision as O2.9, applied to C03's token count")
+	if cn, sn := c.P.Func("core/schedule", "compositeSchedule", "Next"), c.P.Func("core/schedule", "compositeSchedule", "startNext"); cn != nil && sn != nil {
+		c02FinalOnlyFromLastPart(c, "O3.7", cn, sn)
+	} else {
+		c.Anchor("O3.7", "core/schedule.(*compositeSchedule).Next / startNext")
+	}
 
 	run, body, acq := engineLoop(c, "O3.1")
 	if body == nil {
